@@ -6,6 +6,7 @@ import (
 	"encoding/binary"
 	"io"
 	"net"
+	"strings"
 	"sync"
 	"testing"
 	"time"
@@ -259,7 +260,7 @@ func decodeSteps(data []byte) []step {
 		if n > len(rest) {
 			n = len(rest)
 		}
-		out = append(out, step{db: data[0]&1 == 1, data: rest[:n]})
+		out = append(out, step{db: data[0]&1 == 1, data: rest[:n:n]})
 		data = rest[n:]
 	}
 	return out
@@ -321,7 +322,7 @@ func framed(payload []byte) *mysql.Packet {
 	if len(payload) == 0 || len(payload) >= mysql.MaxPayloadLen {
 		return nil
 	}
-	p, err := mysql.ReadPacket(newFakeConn(myPacket(1, payload)))
+	p, err := mysql.ReadPacket(newFakeConn(myPacket(1, payload))) // ReadPacket allocates exactly the declared length
 	if err != nil {
 		return nil
 	}
@@ -389,7 +390,7 @@ func targetMyBoundValue(data []byte) (vs hx.Vs) {
 		}
 		enc, eerr := v.Encode()
 		if eerr == nil && n <= len(data)-1 && n >= 0 && !bytes.Equal(enc, data[1:1+n]) {
-			if _, isLenenc := mybase.NumericTypesStorageBytes[typ]; isLenenc || data[1] < 0xfb {
+			if _, isNumeric := mybase.NumericTypesStorageBytes[typ]; isNumeric || (len(data) > 1 && data[1] < 0xfb) {
 				if typ != mybase.TypeFloat && typ != mybase.TypeDouble { // float text is not canonical
 					vs.Add("roundtrip:mysql.boundvalue", "bound value of type %d decoded from %x re-encodes to %x", typ, trunc(data[1:1+n], 32), trunc(enc, 32))
 				}
@@ -432,7 +433,7 @@ func targetMySession(data []byte) (vs hx.Vs) {
 		defer wg.Done()
 		defer c.finish()
 		var lvs hx.Vs
-		hx.Guard(&lvs, "mysql.session", func() { f(ctx, errCh) })
+		guardClassified(&lvs, "mysql.session", classifyMySession, func() { f(ctx, errCh) })
 		mu.Lock()
 		vs = append(vs, lvs...)
 		mu.Unlock()
@@ -455,6 +456,19 @@ func targetMySession(data []byte) (vs hx.Vs) {
 	return vs
 }
 
+// sigUnboundParams: COM_STMT_EXECUTE whose new-params-bound flag is 0 (legal when a statement is executed
+// again) makes Packet.GetBindParameters return nil BoundValues; the first bind observer that touches one
+// panics. One root cause, several panic sites, hence one signature.
+const sigUnboundParams = "panic:mysql.session@handleStatementExecute/params-not-rebound"
+
+func classifyMySession(stack string, p interface{}) string {
+	if err, ok := p.(error); ok && strings.Contains(err.Error(), "nil pointer dereference") &&
+		strings.Contains(stack, ".handleStatementExecute") && strings.Contains(stack, ".OnBind") {
+		return sigUnboundParams
+	}
+	return ""
+}
+
 const (
 	capProtocol41   = 0x0200
 	capDeprecateEOF = 0x01000000
@@ -470,7 +484,7 @@ func mySessionSeeds() [][]byte {
 		return out, seq
 	}
 	hs := myPacket(0, myHandshake(0xf7ff&^0x0800, 0x81ff, 0))
-	resp := myPacket(1, myHandshakeResponse(capProtocol41|0x8000|0x1, 0))
+	resp := myPacket(1, myHandshakeResponse(capProtocol41|0x8000|0x85, 0))
 	ok := myPacket(2, myOK)
 	query := myPacket(0, append([]byte{3}, mySelect...))
 	d, seq := defs(2)
@@ -485,10 +499,10 @@ func mySessionSeeds() [][]byte {
 	binRow := cat([]byte{0, 0}, []byte{1, 0, 0, 0}, myLenencStr(vals[1]))
 	resultBin := cat(myPacket(1, []byte{2}), binDefs, myPacket(4, myEOF), myPacket(5, binRow), myPacket(6, myEOF))
 	quit := myPacket(0, []byte{1})
-	respDep := myPacket(1, myHandshakeResponse(capProtocol41|capDeprecateEOF|0x1, 0))
+	respDep := myPacket(1, myHandshakeResponse(capProtocol41|capDeprecateEOF|0x85, 0))
 	resultDep := cat(myPacket(1, []byte{byte(len(myCols))}), d, myPacket(seq, myTextRow(vals)), myPacket(seq+1, append([]byte{0xfe}, myOK[1:]...)))
 	hsMaria := myPacket(0, myHandshake(0xf7ff&^0x0800, 0x81ff, 0x8))
-	respMaria := myPacket(1, myHandshakeResponse(capProtocol41|0x1, 0x8))
+	respMaria := myPacket(1, myHandshakeResponse(capProtocol41|0x85, 0x8))
 	dm := cat(myPacket(2, cat(myColumnDef("t", "id", 3, 0)[:len(myColumnDef("t", "id", 3, 0))-13], []byte{0}, myColumnDef("t", "id", 3, 0)[len(myColumnDef("t", "id", 3, 0))-13:])))
 	return [][]byte{
 		encodeSteps([]step{{true, hs}, {false, resp}, {true, ok}, {false, query}, {true, resultText}, {false, quit}}),
@@ -502,7 +516,7 @@ func mySessionSeeds() [][]byte {
 
 func mySessionHostile(t *rapid.T, seeds [][]byte) []byte {
 	hs := myPacket(0, myHandshake(0xf7ff&^0x0800, 0x81ff, rapid.SampledFrom([]uint32{0, 0x8, 0x10, 0x18}).Draw(t, "ext")))
-	caps := rapid.SampledFrom([]uint32{capProtocol41 | 1, capProtocol41 | capDeprecateEOF | 1, 1}).Draw(t, "caps")
+	caps := rapid.SampledFrom([]uint32{capProtocol41 | 0x85, capProtocol41 | capDeprecateEOF | 0x85, 0x85, capProtocol41 | 1}).Draw(t, "caps")
 	resp := myPacket(1, myHandshakeResponse(caps, rapid.SampledFrom([]uint32{0, 0x8, 0x18}).Draw(t, "cext")))
 	ok := myPacket(2, myOK)
 	short := func(label string, b []byte) []byte {
@@ -512,7 +526,7 @@ func mySessionHostile(t *rapid.T, seeds [][]byte) []byte {
 		return b
 	}
 	pre := []step{{true, hs}, {false, resp}, {true, ok}}
-	switch rapid.IntRange(0, 5).Draw(t, "where") {
+	switch rapid.SampledFrom([]int{0, 1, 2, 2, 3, 3, 3, 4, 4, 5}).Draw(t, "where") {
 	case 0: // truncated / hostile handshake from the database
 		h := short("hs", myHandshake(0xffff, 0xffff, 0))
 		return encodeSteps([]step{{true, myPacket(0, h)}, {false, resp}})
@@ -551,8 +565,8 @@ func mySessionHostile(t *rapid.T, seeds [][]byte) []byte {
 		for i := 0; i < n; i++ {
 			defs = append(defs, myPacket(byte(2+i), myColumnDef("t", "enc", rapid.SampledFrom(types).Draw(t, "typ"), 0))...)
 		}
-		row := append([]byte{rapid.SampledFrom([]byte{0, 0, 0, 0xfe, 0xff, 1}).Draw(t, "hdr")}, rapid.SliceOfN(rapid.Byte(), 0, 12).Draw(t, "rowbytes")...)
-		ex := myPacket(0, short("exec", []byte{0x17, 9, 0, 0, 0, 0, 1, 0, 0, 0}))
+		row := append([]byte{rapid.SampledFrom([]byte{0, 0, 0, 0, 0, 0xfe, 0xff, 1}).Draw(t, "hdr")}, rapid.SliceOfN(rapid.SampledFrom([]byte{0, 0, 0, 1, 2, 0xfb, 0xfc, 0xfe, 0xff}), 0, 12).Draw(t, "rowbytes")...)
+		ex := myPacket(0, []byte{0x17, 9, 0, 0, 0, 0, 1, 0, 0, 0})
 		return encodeSteps(append(pre, step{false, ex}, step{true, cat(myPacket(1, []byte{byte(n)}), defs, myPacket(byte(2+n), myEOF), myPacket(byte(3+n), row), myPacket(byte(4+n), myEOF))}))
 	case 4: // prepare response with hostile counts, then execute with hostile parameter block
 		prepare := myPacket(0, append([]byte{0x16}, "select id, enc from t where srch = ? and tok32 = ?"...))
@@ -598,7 +612,7 @@ func init() {
 			return [][]byte{myLenencStr([]byte("abc")), myLenencStr(bytes.Repeat([]byte{'x'}, 300)), myLenencStr(bytes.Repeat([]byte{'y'}, 70000)), {0xfb}, {0},
 				append(myLenencInt(1<<32), "tail"...)}
 		}, magic: lenencMagic, hostile: myLenencHostile})
-	register(&target{name: "mysql.read", group: "FuzzMySQL", fn: targetMyRead,
+	register(&target{name: "mysql.read", group: "FuzzMySQL", fn: targetMyRead, weight: 0.5,
 		nontrivial: func(d []byte) bool {
 			if len(d) < 5 {
 				return false
@@ -627,7 +641,7 @@ func init() {
 		hostile: func(t *rapid.T, seeds [][]byte) []byte {
 			s := rapid.SampledFrom(seeds).Draw(t, "seed")
 			pos := rapid.IntRange(1, len(s)).Draw(t, "pos")
-			out := append(append(append([]byte(nil), s[:pos]...), drawHostileLenenc(t)...))
+			out := append(append([]byte(nil), s[:pos]...), drawHostileLenenc(t)...)
 			if rapid.Bool().Draw(t, "keep") {
 				out = append(out, s[pos:]...)
 			}
@@ -675,7 +689,7 @@ func init() {
 			}
 			return false
 		},
-		seeds: mySessionSeeds, hostile: mySessionHostile, weight: 0.6})
+		seeds: mySessionSeeds, hostile: mySessionHostile, weight: 1.5})
 }
 
 func FuzzMySQL(f *testing.F)        { fuzzGroup(f, "FuzzMySQL") }
